@@ -6,6 +6,8 @@ export OPSIM_REPO=${VP_RUN_REPO:-/repo}
 for seed in "$@"; do
   for p in $(python3 -c "import json;print(' '.join(c['property_id'] for c in json.load(open('MANIFEST.json'))['checks']))"); do
     s=$(date +%s); out=$(VERIF_SEED=$seed ./check $p $tier 2>&1); rc=$?; e=$(date +%s)
+    # keep replay files: the snapshot this runs in is removed when the run is stopped
+    if [ $rc -ne 0 ]; then mkdir -p /tmp/sweep-replays; for f in $(echo "$out" | grep -o 'replay=[^ ]*' | cut -d= -f2); do cp "$f" "${f%.json}.full.json" /tmp/sweep-replays/ 2>/dev/null; done; echo "$out" | tail -40 > /tmp/sweep-replays/$p-seed$seed.out; fi
     echo "seed=$seed $p exit=$rc $((e-s))s $(echo "$out" | grep -E '^(VIOLATION|violation|runs=)' | cut -c1-300 | tr '\n' '|')"
   done
 done
